@@ -479,9 +479,14 @@ Proof.
     + destruct (IH l k' eq_refl Hin) as [k [H1 H2]]. exists k. split; [right; assumption|assumption].
 Qed.
 
-(* a cell survives: none of its volumes is deleted by remove_empty_volumes *)
+(* a cell survives: none of its volumes is deleted *)
 Definition survives (dedup : bool) (nb : numbering) (m : list (N * list Z)) (c : cell) : Prop :=
-  exists ids, parts_ids dedup nb m (snd c) = Ok (Some ids).
+  exists ids left, parts_ids dedup nb m (snd c) = Ok (true, ids, left).
+
+(* a deleted cell leaves the id k behind (argument of a UNION that went) *)
+Definition leaves (dedup : bool) (nb : numbering) (m : list (N * list Z)) (c : cell) (k : N)
+  : Prop :=
+  exists ids left, parts_ids dedup nb m (snd c) = Ok (false, ids, left) /\ In k left.
 
 (* the cell card names surface k: one of its parts has the literal k or -k *)
 Definition names (c : cell) (k : N) : Prop :=
@@ -489,65 +494,98 @@ Definition names (c : cell) (k : N) : Prop :=
 
 (* after pot_expand_surfs one of its volumes has the TRIPOLI-4 id k0 *)
 Definition uses (m : list (N * list Z)) (c : cell) (k0 : N) : Prop :=
-  exists P zs, In P (snd c) /\ expand_part m P = Ok zs /\
-               (In k0 (pluses_of zs) \/ In k0 (minuses_of zs)).
+  exists P zs gs, In P (snd c) /\ expand_part m P = Ok (zs, gs) /\
+    (In k0 (pluses_of zs) \/ In k0 (minuses_of zs) \/
+     exists g, In g gs /\ In k0 (map Z.abs_N g)).
 
-Lemma part_ids_some dedup nb m P a :
-  part_ids dedup nb m P = Ok (Some a) ->
-  exists zs p mi, expand_part m P = Ok zs /\
-    renumber dedup nb (pluses_of zs) = Ok p /\ renumber dedup nb (minuses_of zs) = Ok mi /\
-    empty_vol p mi = false /\ a = (p ++ mi)%list.
+Lemma renumber_groups_in dedup nb gs : forall gids g k0,
+  renumber_groups dedup nb gs = Ok gids -> In g gs -> In k0 (map Z.abs_N g) ->
+  exists k', repr_of dedup nb k0 = Some k' /\ In k' (List.concat gids).
 Proof.
-  unfold part_ids. destruct (expand_part m P) as [zs|]; [|discriminate].
-  destruct (renumber dedup nb (pluses_of zs)) as [p|] eqn:Ep;
-    destruct (renumber dedup nb (minuses_of zs)) as [mi|] eqn:Em; try discriminate.
-  destruct (empty_vol p mi) eqn:Ee; [discriminate|]. intros H. inversion H; subst.
-  exists zs, p, mi. auto.
+  induction gs as [|g0 r IH]; intros gids g k0 H Hg Hk; [destruct Hg|]. cbn in H.
+  destruct (renumber dedup nb (map Z.abs_N g0)) as [a|] eqn:Ea;
+    destruct (renumber_groups dedup nb r) as [b|] eqn:Eb; try discriminate.
+  inversion H; subst gids. cbn. destruct Hg as [->|Hg].
+  - destruct (renumber_in _ _ _ _ _ Ea Hk) as [k' [H1 H2]]. exists k'. split; [assumption|].
+    apply in_or_app. left. assumption.
+  - destruct (IH b g k0 eq_refl Hg Hk) as [k' [H1 H2]]. exists k'. split; [assumption|].
+    apply in_or_app. right. assumption.
 Qed.
 
-Lemma parts_ids_spec dedup nb m Ps : forall ids,
-  parts_ids dedup nb m Ps = Ok (Some ids) ->
-  (forall P, In P Ps -> exists a, part_ids dedup nb m P = Ok (Some a)) /\
-  (forall x, In x ids <-> exists P a, In P Ps /\ part_ids dedup nb m P = Ok (Some a) /\ In x a).
+Lemma renumber_groups_out dedup nb gs : forall gids k',
+  renumber_groups dedup nb gs = Ok gids -> In k' (List.concat gids) ->
+  exists g k0, In g gs /\ In k0 (map Z.abs_N g) /\ repr_of dedup nb k0 = Some k'.
 Proof.
-  induction Ps as [|P0 r IH]; intros ids H; cbn in H.
-  - inversion H; subst. split; [intros P []|]. intros x. split; [intros []|intros [P [a [[] _]]]].
-  - destruct (part_ids dedup nb m P0) as [o|] eqn:E0; [|discriminate].
-    destruct (parts_ids dedup nb m r) as [o'|] eqn:Er; [|discriminate].
-    destruct o as [a0|]; [|discriminate]. destruct o' as [b|]; [|discriminate].
-    inversion H; subst ids. destruct (IH b eq_refl) as [Hall Hin]. split.
+  induction gs as [|g0 r IH]; intros gids k' H Hk; cbn in H.
+  - inversion H; subst. destruct Hk.
+  - destruct (renumber dedup nb (map Z.abs_N g0)) as [a|] eqn:Ea;
+      destruct (renumber_groups dedup nb r) as [b|] eqn:Eb; try discriminate.
+    inversion H; subst gids. cbn in Hk. apply in_app_or in Hk. destruct Hk as [Hk|Hk].
+    + destruct (renumber_out _ _ _ _ _ Ea Hk) as [k0 [H1 H2]]. exists g0, k0.
+      split; [left; reflexivity|auto].
+    + destruct (IH b k' eq_refl Hk) as [g [k0 [H1 H2]]]. exists g, k0.
+      split; [right; assumption|assumption].
+Qed.
+
+Lemma part_ids_alive dedup nb m P ids left :
+  part_ids dedup nb m P = Ok (true, ids, left) ->
+  exists zs gs p mi gids, expand_part m P = Ok (zs, gs) /\
+    renumber dedup nb (pluses_of zs) = Ok p /\ renumber dedup nb (minuses_of zs) = Ok mi /\
+    renumber_groups dedup nb gs = Ok gids /\ ids = (p ++ mi ++ List.concat gids)%list.
+Proof.
+  unfold part_ids. destruct (expand_part m P) as [[zs gs]|]; [|discriminate].
+  destruct (empty_vol (pluses_of zs) (minuses_of zs)); [discriminate|].
+  destruct (renumber dedup nb (pluses_of zs)) as [p|] eqn:Ep;
+    destruct (renumber dedup nb (minuses_of zs)) as [mi|] eqn:Em;
+    destruct (renumber_groups dedup nb gs) as [gids|] eqn:Eg; try discriminate.
+  destruct (empty_vol p mi); [discriminate|]. intros H. inversion H; subst.
+  exists zs, gs, p, mi, gids. auto.
+Qed.
+
+Lemma parts_ids_spec dedup nb m Ps : forall ids left,
+  parts_ids dedup nb m Ps = Ok (true, ids, left) ->
+  (forall P, In P Ps -> exists a o, part_ids dedup nb m P = Ok (true, a, o)) /\
+  (forall x, In x ids <->
+     exists P a o, In P Ps /\ part_ids dedup nb m P = Ok (true, a, o) /\ In x a).
+Proof.
+  induction Ps as [|P0 r IH]; intros ids left H; cbn in H.
+  - inversion H; subst. split; [intros P []|]. intros x.
+    split; [intros []|intros [P [a [o [[] _]]]]].
+  - destruct (part_ids dedup nb m P0) as [[[a0 i0] o0]|] eqn:E0; [|discriminate].
+    destruct (parts_ids dedup nb m r) as [[[a1 i1] o1]|] eqn:Er; [|discriminate].
+    inversion H; subst ids left. clear H. destruct a0; [|discriminate]. destruct a1; [|discriminate].
+    destruct (IH i1 o1 eq_refl) as [Hall Hin]. split.
     + intros P [->|HP]; [eauto|auto].
     + intros x. rewrite in_app_iff, Hin. split.
-      * intros [Hx|[P [a [HP [Ha Hx]]]]].
-        -- exists P0, a0. split; [left; reflexivity|auto].
-        -- exists P, a. split; [right; assumption|auto].
-      * intros [P [a [[->|HP] [Ha Hx]]]].
+      * intros [Hx|[P [a [o [HP [Ha Hx]]]]]].
+        -- exists P0, i0, o0. split; [left; reflexivity|auto].
+        -- exists P, a, o. split; [right; assumption|auto].
+      * intros [P [a [o [[->|HP] [Ha Hx]]]]].
         -- rewrite E0 in Ha. inversion Ha; subst. left. assumption.
-        -- right. exists P, a. auto.
+        -- right. exists P, a, o. auto.
 Qed.
 
 Lemma used_ids_spec dedup nb m cells : forall u,
   used_ids dedup nb m cells = Ok u ->
   forall x, In x u <->
-    exists c ids, In c cells /\ parts_ids dedup nb m (snd c) = Ok (Some ids) /\ In x ids.
+    exists c, In c cells /\
+      ((exists ids left, parts_ids dedup nb m (snd c) = Ok (true, ids, left) /\ In x ids) \/
+       leaves dedup nb m c x).
 Proof.
   induction cells as [|c0 r IH]; intros u H x; cbn in H.
-  - inversion H; subst. split; [intros []|intros [c [ids [[] _]]]].
-  - destruct (parts_ids dedup nb m (snd c0)) as [o|] eqn:E0; [|discriminate].
+  - inversion H; subst. split; [intros []|intros [c [[] _]]].
+  - destruct (parts_ids dedup nb m (snd c0)) as [[[a i] o]|] eqn:E0; [|discriminate].
     destruct (used_ids dedup nb m r) as [u0|] eqn:Eu; [|discriminate].
-    inversion H; subst u. specialize (IH u0 eq_refl x).
-    destruct o as [ids0|].
-    + rewrite in_app_iff, IH. split.
-      * intros [Hx|[c [ids [Hc [Hp Hx]]]]].
-        -- exists c0, ids0. split; [left; reflexivity|auto].
-        -- exists c, ids. split; [right; assumption|auto].
-      * intros [c [ids [[->|Hc] [Hp Hx]]]].
-        -- rewrite E0 in Hp. inversion Hp; subst. left. assumption.
-        -- right. exists c, ids. auto.
-    + rewrite IH. split.
-      * intros [c [ids [Hc [Hp Hx]]]]. exists c, ids. split; [right; assumption|auto].
-      * intros [c [ids [[->|Hc] [Hp Hx]]]]; [rewrite E0 in Hp; discriminate|].
-        exists c, ids. auto.
+    inversion H; subst u. specialize (IH u0 eq_refl x). rewrite in_app_iff, IH. split.
+    + intros [Hx|[c [Hc Hd]]].
+      * exists c0. split; [left; reflexivity|]. destruct a.
+        -- left. exists i, o. auto.
+        -- right. exists i, o. auto.
+      * exists c. split; [right; assumption|assumption].
+    + intros [c [[->|Hc] Hd]].
+      * left. destruct Hd as [[ids [left [Hp Hx]]]|[ids [left [Hp Hx]]]];
+          rewrite E0 in Hp; inversion Hp; subst; assumption.
+      * right. exists c. auto.
 Qed.
 
 Lemma insert_uniq_in k l x : In x (insert_uniq k l) <-> x = k \/ In x l.
@@ -598,44 +636,64 @@ Proof.
   destruct u as [|y u']; [discriminate|]. intros H. exists (y :: u'). auto.
 Qed.
 
-(* the written SURF lines are exactly the representatives of the TRIPOLI-4
-   surfaces used by the volumes of surviving cells, each with its own descriptor *)
+(* the written SURF lines: every line carries the descriptor its number has in
+   the numbering; a line is written exactly for the representatives of the
+   TRIPOLI-4 surfaces used by the volumes of surviving cells, and for what a
+   deleted cell leaves behind *)
+Lemma written_descriptor dedup t cells surfs k d :
+  geometry dedup t cells = Ok surfs -> In (k, d) surfs ->
+  dict_get k (number_items t) = Some d.
+Proof.
+  intros Hg Hin. destruct (geometry_ok _ _ _ _ Hg) as [u [Hu Hl]].
+  destruct (surf_lines_out _ _ _ _ _ Hl Hin) as [_ Hd]. assumption.
+Qed.
+
 Theorem written_surfaces_exact dedup t cells surfs k d :
   geometry dedup t cells = Ok surfs ->
   (In (k, d) surfs <->
    dict_get k (number_items t) = Some d /\
-   exists c k0, In c cells /\ survives dedup (number_items t) (matching_of t) c /\
-                uses (matching_of t) c k0 /\
-                repr_of dedup (number_items t) k0 = Some k).
+   exists c, In c cells /\
+     ((survives dedup (number_items t) (matching_of t) c /\
+       exists k0, uses (matching_of t) c k0 /\ repr_of dedup (number_items t) k0 = Some k) \/
+      leaves dedup (number_items t) (matching_of t) c k)).
 Proof.
   intros Hg. destruct (geometry_ok _ _ _ _ Hg) as [u [Hu Hl]]. split.
   - intros Hin. destruct (surf_lines_out _ _ _ _ _ Hl Hin) as [Hk Hd]. split; [assumption|].
     apply (proj1 (sort_uniq_in _ _)) in Hk.
-    destruct (proj1 (used_ids_spec _ _ _ _ _ Hu k) Hk) as [c [ids [Hc [Hp Hx]]]].
-    destruct (parts_ids_spec _ _ _ _ _ Hp) as [_ Hids].
-    destruct (proj1 (Hids k) Hx) as [P [a [HP [Ha Hka]]]].
-    destruct (part_ids_some _ _ _ _ _ Ha) as [zs [p [mi [He [Hrp [Hrm [_ ->]]]]]]].
+    destruct (proj1 (used_ids_spec _ _ _ _ _ Hu k) Hk) as [c [Hc [Halive|Hleft]]];
+      [|exists c; auto].
+    destruct Halive as [ids [left [Hp Hx]]]. exists c. split; [assumption|]. left.
+    split; [exists ids, left; assumption|].
+    destruct (parts_ids_spec _ _ _ _ _ _ Hp) as [_ Hids].
+    destruct (proj1 (Hids k) Hx) as [P [a [o [HP [Ha Hka]]]]].
+    destruct (part_ids_alive _ _ _ _ _ _ Ha) as [zs [gs [p [mi [gids [He [Hrp [Hrm [Hrg ->]]]]]]]]].
     apply in_app_or in Hka. destruct Hka as [Hka|Hka].
     + destruct (renumber_out _ _ _ _ _ Hrp Hka) as [k0 [H1 H2]].
-      exists c, k0. split; [assumption|]. split; [exists ids; assumption|].
-      split; [exists P, zs; auto|assumption].
-    + destruct (renumber_out _ _ _ _ _ Hrm Hka) as [k0 [H1 H2]].
-      exists c, k0. split; [assumption|]. split; [exists ids; assumption|].
-      split; [exists P, zs; auto|assumption].
-  - intros [Hd [c [k0 [Hc [[ids Hp] [[P [zs [HP [He Hb]]]] Hr]]]]]].
-    destruct (parts_ids_spec _ _ _ _ _ Hp) as [Hall Hids].
-    destruct (Hall P HP) as [a Ha].
-    destruct (part_ids_some _ _ _ _ _ Ha) as [zs' [p [mi [He' [Hrp [Hrm [_ Heq]]]]]]].
-    rewrite He in He'. inversion He'; subst zs'.
-    assert (Hk : In k a).
-    { subst a. destruct Hb as [Hb|Hb].
+      exists k0. split; [exists P, zs, gs; auto|assumption].
+    + apply in_app_or in Hka. destruct Hka as [Hka|Hka].
+      * destruct (renumber_out _ _ _ _ _ Hrm Hka) as [k0 [H1 H2]].
+        exists k0. split; [exists P, zs, gs; auto|assumption].
+      * destruct (renumber_groups_out _ _ _ _ _ Hrg Hka) as [g [k0 [H1 [H2 H3]]]].
+        exists k0. split; [exists P, zs, gs; split; [assumption|]; split; [assumption|];
+                          right; right; exists g; auto|assumption].
+  - intros [Hd [c [Hc Hcase]]].
+    assert (Hku : In k u).
+    { apply (used_ids_spec _ _ _ _ _ Hu k). exists c. split; [assumption|].
+      destruct Hcase as [[[ids [left Hp]] [k0 [[P [zs [gs [HP [He Hb]]]]] Hr]]]|Hleft];
+        [|right; assumption].
+      left. exists ids, left. split; [assumption|].
+      destruct (parts_ids_spec _ _ _ _ _ _ Hp) as [Hall Hids].
+      destruct (Hall P HP) as [a [o Ha]]. apply Hids. exists P, a, o.
+      split; [assumption|]. split; [assumption|].
+      destruct (part_ids_alive _ _ _ _ _ _ Ha) as [zs' [gs' [p [mi [gids [He' [Hrp [Hrm [Hrg ->]]]]]]]]].
+      rewrite He in He'. inversion He'; subst zs' gs'.
+      destruct Hb as [Hb|[Hb|[g [Hgg Hb]]]].
       - destruct (renumber_in _ _ _ _ _ Hrp Hb) as [k' [H1 H2]]. rewrite Hr in H1.
         inversion H1; subst. apply in_or_app. left. assumption.
       - destruct (renumber_in _ _ _ _ _ Hrm Hb) as [k' [H1 H2]]. rewrite Hr in H1.
-        inversion H1; subst. apply in_or_app. right. assumption. }
-    assert (Hku : In k u).
-    { apply (used_ids_spec _ _ _ _ _ Hu k). exists c, ids. split; [assumption|].
-      split; [assumption|]. apply Hids. exists P, a. auto. }
+        inversion H1; subst. apply in_or_app. right. apply in_or_app. left. assumption.
+      - destruct (renumber_groups_in _ _ _ _ _ _ Hrg Hgg Hb) as [k' [H1 H2]]. rewrite Hr in H1.
+        inversion H1; subst. apply in_or_app. right. apply in_or_app. right. assumption. }
     apply (proj2 (sort_uniq_in _ _)) in Hku.
     destruct (surf_lines_in _ _ _ _ Hl Hku) as [d' [H1 H2]]. rewrite Hd in H1.
     inversion H1; subst. assumption.
@@ -672,29 +730,35 @@ Proof.
     + apply filter_In. split; [assumption|]. apply Z.ltb_lt. apply Z.ltb_ge in Es. lia.
 Qed.
 
-Lemma expand_part_in m P : forall zs z,
-  expand_part m P = Ok zs -> In z P ->
-  exists a, expand_lit m z = Ok a /\ forall x, In x a -> In x zs.
+Lemma expand_part_in m P : forall zs gs z,
+  expand_part m P = Ok (zs, gs) -> In z P ->
+  exists a g, expand_lit m z = Ok (a, g) /\ (forall x, In x a -> In x zs) /\
+              (forall x, In x g -> In x gs).
 Proof.
-  induction P as [|z0 r IH]; intros zs z H Hin; [destruct Hin|]. cbn in H.
-  destruct (expand_lit m z0) as [a0|] eqn:E0; destruct (expand_part m r) as [b|] eqn:Er;
-    try discriminate. inversion H; subst zs.
+  induction P as [|z0 r IH]; intros zs gs z H Hin; [destruct Hin|]. cbn in H.
+  destruct (expand_lit m z0) as [[a0 g0]|] eqn:E0; destruct (expand_part m r) as [[b h]|] eqn:Er;
+    try discriminate. inversion H; subst zs gs.
   destruct Hin as [->|Hin].
-  - exists a0. split; [assumption|]. intros x Hx. apply in_or_app. left. assumption.
-  - destruct (IH b z eq_refl Hin) as [a [Ha Hsub]]. exists a. split; [assumption|].
-    intros x Hx. apply in_or_app. right. auto.
+  - exists a0, g0. split; [assumption|]. split; intros x Hx; apply in_or_app; left; assumption.
+  - destruct (IH b h z eq_refl Hin) as [a [g [Ha [Hs1 Hs2]]]]. exists a, g. split; [assumption|].
+    split; intros x Hx; apply in_or_app; right; auto.
 Qed.
 
-Lemma expand_lit_has m z s rest a :
+(* the expansion of a literal of key k holds +-k, in the equation or as the
+   first member of a union group *)
+Lemma expand_lit_has m z s rest a g :
   dict_get (Z.abs_N z) m = Some (s :: rest) -> Z.abs_N s = Z.abs_N z ->
-  expand_lit m z = Ok a -> exists s', In s' a /\ Z.abs_N s' = Z.abs_N z.
+  expand_lit m z = Ok (a, g) ->
+  (exists s', In s' a /\ Z.abs_N s' = Z.abs_N z) \/
+  (exists grp, In grp g /\ In (Z.abs_N z) (map Z.abs_N grp)).
 Proof.
   intros Hg Hs H. unfold expand_lit in H. rewrite Hg in H. destruct rest as [|s2 rest].
-  - inversion H; subst. destruct (Z.ltb 0 z).
+  - inversion H; subst. left. destruct (Z.ltb 0 z).
     + exists s. split; [left; reflexivity|assumption].
     + exists (Z.opp s). split; [left; reflexivity|]. rewrite Zabs2N.inj_opp. assumption.
-  - destruct (Z.ltb 0 z); [discriminate|]. inversion H; subst.
-    exists (Z.opp s). split; [left; reflexivity|]. rewrite Zabs2N.inj_opp. assumption.
+  - destruct (Z.ltb 0 z); inversion H; subst.
+    + right. exists (s :: s2 :: rest). split; [left; reflexivity|]. left. assumption.
+    + left. exists (Z.opp s). split; [left; reflexivity|]. rewrite Zabs2N.inj_opp. assumption.
 Qed.
 
 (* a surviving cell whose card names the key k of the dictionary uses the
@@ -704,16 +768,19 @@ Lemma names_uses dedup t c k e :
   survives dedup (number_items t) (matching_of t) c -> names c k ->
   uses (matching_of t) c k.
 Proof.
-  intros Hnd Hin [ids Hp] [P [z [HP [Hz [Hnz Hk]]]]].
-  destruct (parts_ids_spec _ _ _ _ _ Hp) as [Hall _]. destruct (Hall P HP) as [a Ha].
-  destruct (part_ids_some _ _ _ _ _ Ha) as [zs [p [mi [He _]]]].
-  destruct (expand_part_in _ _ _ _ He Hz) as [a' [Hl Hsub]].
+  intros Hnd Hin [ids [left Hp]] [P [z [HP [Hz [Hnz Hk]]]]].
+  destruct (parts_ids_spec _ _ _ _ _ _ Hp) as [Hall _]. destruct (Hall P HP) as [a [o Ha]].
+  destruct (part_ids_alive _ _ _ _ _ _ Ha) as [zs [gs [p [mi [gids [He _]]]]]].
+  destruct (expand_part_in _ _ _ _ _ He Hz) as [a' [g' [Hl [Hsub1 Hsub2]]]].
   destruct (matching_from_get t (N.succ (max_key t)) k e Hnd Hin) as [s [rest [Hg Hs]]].
   fold (matching_of t) in Hg. rewrite <- Hk in Hg, Hs.
-  destruct (expand_lit_has _ _ _ _ _ Hg Hs Hl) as [s' [Hs' Habs]].
-  exists P, zs. split; [assumption|]. split; [assumption|].
-  rewrite <- Hk, <- Habs. apply sign_member; [auto|].
-  intros Hc. subst s'. cbn in Habs. destruct z; [contradiction|discriminate|discriminate].
+  exists P, zs, gs. split; [assumption|]. split; [assumption|].
+  destruct (expand_lit_has _ _ _ _ _ _ Hg Hs Hl) as [[s' [Hs' Habs]]|[grp [Hgrp Hin']]].
+  - assert (Hm : In (Z.abs_N s') (pluses_of zs) \/ In (Z.abs_N s') (minuses_of zs)).
+    { apply sign_member; [auto|]. intros Hc. subst s'. cbn in Habs.
+      destruct z; [contradiction|discriminate|discriminate]. }
+    rewrite Habs, Hk in Hm. tauto.
+  - right. right. exists grp. split; [auto|]. rewrite <- Hk. assumption.
 Qed.
 
 (* ---- every entry of conversionBoundCond is sound --------------------------- *)
@@ -996,8 +1063,8 @@ Proof.
   destruct (rep_descriptor (negb (skip_dedup cfg)) t k e Hnd Hin) as [Hrep Hdesc]. fold k' in Hrep, Hdesc.
   assert (Hsurf : In (k', e_first e) surfs).
   { apply (written_surfaces_exact _ _ _ _ k' (e_first e) Egeo). split; [assumption|].
-    exists c, k. split; [assumption|]. split; [assumption|].
-    split; [eapply names_uses; eauto|assumption]. }
+    exists c. split; [assumption|]. left. split; [assumption|].
+    exists k. split; [eapply names_uses; eauto|assumption]. }
   destruct (merge_entries_spec _ _ _ _ _ _ Em) as [_ [H2 [_ H4]]].
   assert (Hl : In (kind_of (e_flag e), k) l).
   { destruct (bc_kind t l k e Ebc Hin) as [H1 [H1' _]].
@@ -1030,7 +1097,7 @@ Proof.
   exists k, e. repeat (split; [assumption|]).
   destruct (rep_descriptor (negb (skip_dedup cfg)) t k e Hnd He) as [_ Hdesc]. rewrite Hr in Hdesc.
   apply memN_In in Hu. apply in_map_iff in Hu. destruct Hu as [[k0 d] [Hk0 Hd]]. cbn in Hk0. subst k0.
-  destruct (proj1 (written_surfaces_exact _ _ _ _ k' d Egeo) Hd) as [Hd' _].
+  pose proof (written_descriptor _ _ _ _ k' d Egeo Hd) as Hd'.
   rewrite Hdesc in Hd'. inversion Hd'; subst. assumption.
 Qed.
 
